@@ -27,6 +27,9 @@ NA = {
 }
 PENDING = "claimed in DESIGN.md but its engine is not built yet in this commit; listed here until its check exists (not a judgement of applicability)"
 CHECKS = {
+ "C10": dict(level="exploration", technique="deterministic simulation of the allocator's environment: both allocator WAT copies run on wazero with memory.grow gated by the simulator (refused at seeded operations), a simulated client that fills every payload byte, seeded malloc/free histories over a configuration swarm; full heap-layout oracle (tiling, free-list membership, overlap, client patterns, justified failure) after every operation; loop-fuel step bound; shrunk replayable tapes",
+   text="Seeded search over configurations and malloc/free histories with injected grow refusals. After every operation the harness re-derives the complete heap layout from linear memory: blocks tile [heap_base+48, heap_ptr) exactly, every tile is live or on exactly one free list, fixed-list counts match, live blocks are aligned, inside heap and memory, large enough, non-overlapping and still hold the client's bytes; a 0 result must be justified (no fitting block on the class list or the general list, no room below heap_top, and growing refused by the environment or impossible within the maximum). Evidence, not proof.",
+   note="trusts watutil.Wat2Wasm and the vendored wazero to execute the allocator faithfully; the grow seam is a text substitution of memory.grow by a wasm wrapper that asks the host and then executes the real instruction; heaps up to 64 pages", ref="DESIGN.md section 4 C10"),
  "C25": dict(level="fault_enumeration", technique="deterministic simulation of the byte-stream transport: seeded packet sequences through the real SLIP/SLIPMUX writer and reader, complete enumeration of every single transient-empty-read position x kind per stream, plus seeded multi-stall / bounded-chunk schedules; shrunk replayable tapes",
    text="Every generated stream is read back fault-free and under every single stall position and kind (complete for one fault per stream up to the size limit), then under seeded multi-fault schedules; payloads and frame types must equal what was written and every packet must be delivered once the bytes are available. Streams are sampled, the single-fault space per stream is enumerated.",
    note="trusts the harness consumer loop (concatenate isPrefix fragments) as the documented reader protocol; transient reads limited to (0,nil),(0,EOF),(0,timeout); no concurrent writers", ref="DESIGN.md section 4 C25"),
